@@ -191,3 +191,44 @@ Fixpoint rdnsses (l : list ndopt) : list ndopt :=
   match l with [] => [] | (ORdnss _ _ as o) :: r => o :: rdnsses r | _ :: r => rdnsses r end.
 Fixpoint dnssls (l : list ndopt) : list ndopt :=
   match l with [] => [] | (ODnssl _ _ as o) :: r => o :: dnssls r | _ :: r => dnssls r end.
+
+(* ---- malformed options ----
+   What a receiver does with an option of a known type that violates its own format is only partly
+   fixed by the RFCs (RFC 4191 2.3: a route option with the reserved preference MUST be ignored).
+   The reading taken here, option by option:
+     * a source/target link-layer address option whose length is not 1 (Ethernet) and a prefix
+       information option whose length is not 4 or whose prefix length exceeds 128 make the whole
+       advertisement unusable: it is rejected, nothing is learned;
+     * any other malformed known option (MTU of length <> 1, inconsistent or reserved-preference
+       route option, RDNSS of length < 3 or even, DNSSL without a well-formed name list) is skipped
+       as if it were of an unknown type and leaves no trace. *)
+Definition opt_reject (t l : N) (body : bytes) : bool :=
+  (((t =? 1) || (t =? 2)) && negb (l =? 1)) ||
+  ((t =? 3) && (negb (l =? 4) || (128 <? nth 0 body 0))).
+
+Fixpoint decode_lenient (l : list (N * N * bytes)) : option (list ndopt) :=
+  match l with
+  | [] => Some []
+  | (t, n, body) :: r =>
+    if opt_reject t n body then None else
+    match decode_lenient r with
+    | None => None
+    | Some os => Some (match decode_opt t n body with Some o => o :: os | None => os end)
+    end
+  end.
+
+(* None: too short, option area cannot be split (truncated or zero-length option), or rejected *)
+Definition ra_decode_lenient (p : bytes) : option ra_info :=
+  match p with
+  | _ :: _ :: _ :: _ :: hop :: fl :: l0 :: l1 :: r0 :: r1 :: r2 :: r3 :: s0 :: s1 :: s2 :: s3 :: optb =>
+    match split_tlv (List.length optb) optb with
+    | Some tl =>
+      match decode_lenient tl with
+      | Some os => Some (mkRA hop (bit fl 7) (bit fl 6) ((fl / 8) mod 4) (l0 * 256 + l1)
+                              (w32 r0 r1 r2 r3) (w32 s0 s1 s2 s3) os)
+      | None => None
+      end
+    | None => None
+    end
+  | _ => None
+  end.
